@@ -398,6 +398,29 @@ type Case struct {
 	Vals   []map[string]any `json:"valuations"`
 	Want   []string         `json:"want"`
 	IsBool bool             `json:"is_bool"`
+	// ConstValued: variables occur only as shift counts, every other operand is a constant. Such an expression has
+	// no type of its own in the REPL dialect (it takes one from where it is used); only its value is compared.
+	ConstValued bool `json:"const_valued,omitempty"`
+}
+
+// constValued reports whether every identifier of the expression is (part of) the count of a shift.
+func constValued(n ast.Expr, inCount bool) bool {
+	switch x := n.(type) {
+	case *ast.ParenExpr:
+		return constValued(x.X, inCount)
+	case *ast.Ident:
+		return inCount || x.Name == "true" || x.Name == "false"
+	case *ast.BasicLit:
+		return true
+	case *ast.UnaryExpr:
+		return constValued(x.X, inCount)
+	case *ast.BinaryExpr:
+		if x.Op == token.SHL || x.Op == token.SHR {
+			return constValued(x.X, inCount) && constValued(x.Y, true)
+		}
+		return constValued(x.X, inCount) && constValued(x.Y, inCount)
+	}
+	return false
 }
 
 func names(x *Expr, into map[string]bool) {
@@ -456,7 +479,7 @@ func build(x *Expr, compact bool) (c *Case, nDist, nAlts int, ok bool) {
 	used := map[string]bool{}
 	names(x, used)
 
-	c = &Case{Text: text, IsBool: tv.isBool}
+	c = &Case{Text: text, IsBool: tv.isBool, ConstValued: constValued(root, false)}
 	pending := make([]bool, len(al))
 	for i := range pending {
 		pending[i] = true
@@ -621,6 +644,13 @@ func litOf(v any) string {
 	return fmt.Sprint(v)
 }
 
+func renderC(c *Case, v goatlang.Value) string {
+	if c.ConstValued && !c.IsBool && v.Type() == 1 { // untyped number
+		return fmt.Sprint(int32(int64(v.Float64())))
+	}
+	return render(v, c.IsBool)
+}
+
 func render(v goatlang.Value, isBool bool) string {
 	if isBool {
 		if v.Type() != goatlang.TypeBool {
@@ -773,7 +803,7 @@ func checkCase(c *Case) *ev.Failure {
 		if len(rr.Rets) != 1 {
 			return fail(c, "globals", i, c.Want[i], fmt.Sprintf("%d values: %v", len(rr.Rets), rr.RetStrings()))
 		}
-		if got := render(rr.Rets[0], c.IsBool); got != c.Want[i] {
+		if got := renderC(c, rr.Rets[0]); got != c.Want[i] {
 			return fail(c, "globals", i, c.Want[i], got)
 		}
 	}
